@@ -26,6 +26,8 @@ func Main(args []string) int {
 			return 2
 		}
 		return cmdReplay(args[1])
+	case "sweep":
+		return cmdSweep(args[1:])
 	case "keys":
 		v, err := Load(args[1], []string{"."}, nil)
 		if err != nil {
